@@ -91,8 +91,8 @@ fn option_set(rng: &mut Rng, ops: &[String], query_path: &str) -> Value {
     if rng.chance(1, 4) {
         o.insert("visibility".into(), json!(*rng.pick(&["pub", "pub(crate)"])));
     }
-    if rng.chance(1, 5) {
-        o.insert("normalization".into(), json!(*rng.pick(&["rust", "none"])));
+    if rng.chance(2, 5) {
+        o.insert("normalization".into(), json!(*rng.pick(&["rust", "rust", "rust", "none"])));
     }
     if rng.chance(1, 6) {
         o.insert(
